@@ -95,8 +95,11 @@ pub fn gen_case(c: &mut Choices) -> Case {
                 _ => format!("[\"{}\"]", p.key),
             }
         } else if p.key.chars().all(|ch| ch.is_ascii_digit()) {
-            match c.pick(2) {
+            match c.pick(4) {
                 0 => p.key.to_string(),
+                // the string spelling of a numeric key is the same key
+                1 => format!("\"{}\"", p.key),
+                2 => format!("[\"{}\"]", p.key),
                 _ => format!("[{}]", p.key),
             }
         } else {
@@ -112,10 +115,19 @@ pub fn gen_case(c: &mut Choices) -> Case {
             label("key-spelling-differs-from-type", &mut labels);
         }
         let key_js = serde_json::to_string(p.key).unwrap();
+        if c.chance(1, 8) {
+            // the same key written twice: the later entry is the one JavaScript keeps
+            entries.push(format!("{ks}: \"written-first\""));
+            label("duplicate-key-last-wins", &mut labels);
+        }
         if p.fn_typed {
             // Function-typed prop: the written function itself
             let f = c.choose(&["() => 1", "function () { return 2; }", "dfn", "fn1"]);
-            if f == "fn1" && p.key == "fn1" && c.bool() && !ks.starts_with('[') && !ks.starts_with('"') {
+            if c.chance(1, 5) {
+                // ... also when a getter produces it
+                entries.push(format!("get {ks}() {{ return {f}; }}"));
+                label("getter-for-function-typed-prop", &mut labels);
+            } else if f == "fn1" && p.key == "fn1" && c.bool() && !ks.starts_with('[') && !ks.starts_with('"') {
                 entries.push("fn1".to_string()); // shorthand
                 label("shorthand", &mut labels);
             } else {
